@@ -356,3 +356,4 @@ PROP = Prop(
     subs=[Sub('locate', body_locate, strategy=case_locate, quick=3000, thorough=60000),
           Sub('evaluate', body_eval, strategy=case_eval, quick=1200, thorough=30000)],
     design_ref='DESIGN.md section 6, C14')
+PROP.rule += ('. Added in round 2: every query point is also evaluated on its own twice in a row and the sequence once more backwards.')
